@@ -2390,7 +2390,7 @@ def zip64_scenarios(tier, rnd):
     sizes = [T - 1, T, T + 1] if tier == "quick" else [T - 2, T - 1, T, T + 1, 5 * (1 << 30)]
     for sz in sizes:
         for large in (False, True):
-            if tier == "quick" and (sz, large) in ((T - 1, True), (T + 1, False), (T + 1, True)):
+            if tier == "quick" and (sz, large) in ((T - 1, True), (T + 1, False), (T + 1, True), (T, True)):      # (two-big covers large entries)
                 continue
             scs.append(big_entry("size-%d-%s" % (sz, "large" if large else "plain"), sz, large, comment="zip64" if sz % 2 else None))
     # the same limit for a compressing method (the compressed size stays tiny, so only the write-side rule can refuse it)
